@@ -52,6 +52,24 @@ def find_aggs(v, adts, out, depth=0):
             find_aggs(s, adts, out, depth + 1)
 
 
+def _zero_request(E, F, m, path):
+    """does the path know that the amount this call asks for is zero (its integer parameter, or the own node's
+    required_permits)?"""
+    names = {}
+    for d in m['debug']:
+        if not d['place']['p']:
+            names.setdefault(d['place']['l'], d['name'])
+    cands = []
+    for i in range(1, m['arg_count'] + 1):
+        t = m['locals'][i]['ty']
+        nm = names.get(i, 'arg%d' % i)
+        if t.get('name') == 'usize' or t.get('str') == 'usize':
+            cands.append(('param', nm))
+        elif t.get('k') == 'ref' and 'ListNode' in (t.get('str') or ''):
+            cands.append(('init', (('P', nm), 'data', 'required_permits')))
+    return any(const_of(E, path.facts, c) == 0 for c in cands)
+
+
 def run(C, R):
     R.explanation = ('Ledger invariant: permits + sum of live releasers\' amounts + disarmed amounts = initial + '
                      'explicit releases.  R1 every subtraction `permits -= X` on a MIR path is preceded by the test '
@@ -126,7 +144,10 @@ def run(C, R):
                                where(F, w), {'trace': trace_summary(path)})
                 if is_entry:
                     grant = path.ret == ('const', 1) or const_of(E, path.facts, path.ret) == 1 or poll_variant(E, path) == 'Ready'
-                    if grant and len(subs) != 1:
+                    if grant and not subs and _zero_request(E, F, m, path):
+                        R.ok('C05.R3', '%s|a request for zero permits is granted without touching the ledger|%s'
+                             % (m['path'], path_cond(E, path)))
+                    elif grant and len(subs) != 1:
                         R.fail('C05.R3', [m['path'], 'grant-without-single-subtraction', path_cond(E, path)],
                                '%s reports success with %d subtractions [%s]' % (m['path'], len(subs),
                                                                                   path_cond(E, path)),
@@ -233,6 +254,9 @@ def run(C, R):
                     continue
                 nrel += 1
                 amount = dict(aggs[0][3]).get('permits')
+                if not subs and amount is not None and const_of(E, path.facts, amount) == 0:
+                    R.ok('C05.R4', '%s|a releaser for zero permits, nothing subtracted|%s' % (fn['path'], path_cond(E, path)))
+                    continue
                 if len(subs) != 1:
                     R.fail('C05.R4', [fn['path'], 'releaser-without-grant', path_cond(E, path)],
                            '%s returns a releaser on a path with %d subtractions' % (fn['path'], len(subs)),
